@@ -15,6 +15,7 @@ from primaite.simulator.network.hardware.base import Link, Node, WiredNetworkInt
 from primaite.simulator.network.hardware.nodes.host.host_node import HostNode
 from primaite.simulator.network.hardware.nodes.host.server import Printer
 from primaite.simulator.network.hardware.nodes.network.network_node import NetworkNode
+from primaite.simulator.network.nmne import NMNEConfig
 from primaite.simulator.system.applications.application import Application
 from primaite.simulator.system.services.service import Service
 
@@ -36,6 +37,8 @@ class Network(SimComponent):
 
     links: Dict[str, Link] = {}
     airspace: AirSpace = Field(default_factory=lambda: AirSpace())
+    nmne_config: NMNEConfig = Field(default_factory=lambda: NMNEConfig())
+    "The NMNE capture settings of this network's interfaces (unless ``NetworkInterface.nmne_config`` is assigned)."
     _node_id_map: Dict[int, Node] = {}
     _link_id_map: Dict[int, Node] = {}
 
